@@ -14,6 +14,7 @@ import (
 	"encoding/json"
 	"fmt"
 	gobig "math/big"
+	"reflect"
 	"sort"
 	"strings"
 	"sync"
@@ -77,6 +78,11 @@ func adapt[S any, C any, P any](name string, s *S,
 			if !vstruct(s, c, p) {
 				return nil, false
 			}
+			// the frame every component is verified in (ValidKeyProofStructure.VerifyProof) refuses
+			// proofs with a Pedersen commitment outside the group; this stand-in does the same
+			if !pedersenCommitmentsInGroup(reflect.ValueOf(p), g) {
+				return nil, false
+			}
 			return rebuild(s, g, list, c, bases, proofs, p), true
 		},
 	}
@@ -122,10 +128,16 @@ func c17Prove(comp c17Component, ops []c17Operand) ([]byte, error) {
 
 // c17Verify is the verifier side: structure checks, rebuilt commitments, hash == challenge.
 func c17Verify(comp c17Component, names []string, doc []byte) (accept bool) {
+	list, challenge, ok := c17VerifierList(comp, names, doc)
+	return ok && common.HashCommit(list, false).Cmp(challenge) == 0
+}
+
+// c17VerifierList: the commitments the verifier rebuilds from a bundle (what it then hashes)
+func c17VerifierList(comp c17Component, names []string, doc []byte) ([]*big.Int, *big.Int, bool) {
 	g := c17G()
 	var b c17Bundle
 	if err := json.Unmarshal(doc, &b); err != nil || b.Challenge == nil || len(b.Operands) != len(names) {
-		return false
+		return nil, nil, false
 	}
 	var list []*big.Int
 	baseParts := []zkproof.BaseLookup{&g}
@@ -133,8 +145,8 @@ func c17Verify(comp c17Component, names []string, doc []byte) (accept bool) {
 	for _, n := range names {
 		pp := b.Operands[n]
 		ps := newPedersenStructure(n)
-		if pp == nil || !ps.verifyProofStructure(*pp) {
-			return false
+		if pp == nil || !ps.verifyProofStructure(*pp) || !pedersenCommitmentsInGroup(reflect.ValueOf(*pp), g) {
+			return nil, nil, false
 		}
 		pp.setName(n)
 		list = ps.commitmentsFromProof(g, list, b.Challenge, *pp)
@@ -145,9 +157,66 @@ func c17Verify(comp c17Component, names []string, doc []byte) (accept bool) {
 	proofs := zkproof.NewProofMerge(proofParts...)
 	list, ok := comp.verify(g, list, b.Challenge, &bases, &proofs, b.Proof)
 	if !ok {
-		return false
+		return nil, nil, false
 	}
-	return common.HashCommit(list, false).Cmp(b.Challenge) == 0
+	return list, b.Challenge, true
+}
+
+// c17ZeroCheat: a prover for a FALSE statement who replaces the Pedersen commitments of the named
+// operands by 0. A commitment that is not a unit of the group makes every relation it occurs in
+// collapse (0^x = 0, no inverse), so that the rebuilt commitments of those relations no longer depend
+// on the challenge. The prover runs the honest algorithm on the false witness with the zeros in place,
+// asks what the verifier would rebuild, hashes that, and answers with it. Returns whether the
+// verifier accepts.
+func c17ZeroCheat(comp c17Component, ops []c17Operand, zero map[string]bool) (accepted bool, err error) {
+	g := c17G()
+	var list []*big.Int
+	structs := map[string]*pedersenStructure{}
+	commits := map[string]*pedersenCommit{}
+	baseParts := []zkproof.BaseLookup{&g}
+	var secretParts []zkproof.SecretLookup
+	for _, o := range ops {
+		ps := newPedersenStructure(o.name)
+		var pc pedersenCommit
+		list, pc = ps.commitmentsFromSecrets(g, list, o.val)
+		structs[o.name], commits[o.name] = &ps, &pc
+		baseParts = append(baseParts, &pc)
+		secretParts = append(secretParts, &pc)
+	}
+	bases := zkproof.NewBaseMerge(baseParts...)
+	secrets := zkproof.NewSecretMerge(secretParts...)
+	list, finish := comp.commit(g, list, &bases, &secrets)
+	bundle := func(c *big.Int) ([]byte, error) {
+		b := c17Bundle{Challenge: c, Operands: map[string]*PedersenProof{}}
+		for _, o := range ops {
+			pp := structs[o.name].buildProof(g, c, *commits[o.name])
+			if zero[o.name] {
+				pp.Commit = big.NewInt(0)
+			}
+			b.Operands[o.name] = &pp
+		}
+		raw, err := json.Marshal(finish(c))
+		if err != nil {
+			return nil, err
+		}
+		b.Proof = raw
+		return json.Marshal(b)
+	}
+	c1 := common.HashCommit(list, false)
+	d1, err := bundle(c1)
+	if err != nil {
+		return false, err
+	}
+	l1, _, ok := c17VerifierList(comp, names(ops), d1)
+	if !ok {
+		return false, nil
+	}
+	cstar := common.HashCommit(l1, false)
+	d2, err := bundle(cstar)
+	if err != nil {
+		return false, err
+	}
+	return c17Verify(comp, names(ops), d2), nil
 }
 
 func names(ops []c17Operand) []string {
@@ -464,6 +533,39 @@ func TestVF_C17_Components(t *testing.T) {
 				vals[o.name] = o.val.String()
 			}
 			rec.Fail(rt, "false-statement-accepted:"+kind+":"+fs.class, map[string]any{"component": kind, "class": fs.class, "operands": vals})
+			return
+		}
+		// ---- (iv) the same false statement with operand commitments that are not units (zero):
+		// every single operand, and all of them
+		var sets []map[string]bool
+		all := map[string]bool{}
+		for _, o := range fs.ops {
+			sets = append(sets, map[string]bool{o.name: true})
+			all[o.name] = true
+		}
+		sets = append(sets, all)
+		for _, z := range sets {
+			var acc bool
+			var zerr error
+			if ps := vfh.Guard(func() { acc, zerr = c17ZeroCheat(fs.comp, fs.ops, z) }); ps != "" || zerr != nil {
+				rec.Class("zero-commitment-prover-gave-up/"+kind, 1)
+				continue
+			}
+			zn := ""
+			for _, o := range fs.ops {
+				if z[o.name] {
+					zn += o.name + ","
+				}
+			}
+			rec.Case("false-statement-with-zero-commitment/"+kind, true, fmt.Sprintf("z|%s|%v|%s", kind, fs.ops, zn))
+			if acc {
+				vals := map[string]string{}
+				for _, o := range fs.ops {
+					vals[o.name] = o.val.String()
+				}
+				rec.Fail(rt, "false-statement-accepted:zero-commitment:"+kind, map[string]any{"component": kind, "class": fs.class, "operands": vals, "commitments_set_to_zero": zn})
+				return
+			}
 		}
 	})
 }
